@@ -122,6 +122,16 @@ def relational_part(V, prop, relkind, tr, sd, workers=None, ncap=None):
     cap = ncap or (600 if tr == "quick" else 20000)
     if len(nets) > cap:
         nets = rnd.sample(nets, cap)
+    extra_therm = []
+    if relkind in ("rev", "iso"):
+        # passive heat nets (pipes with heat losses, valves, heat exchangers; library water): they converge in every mode, so the thermal
+        # modes - above all bidirectional, where temperature-dependent properties follow the actual flow direction - are well represented
+        th = dict(MaxJ="= 4", MaxE="= 4", MaxN="= 3", MaxPV="= 1", Kinds="<- KindsPassive", NKinds="<- NKindsTherm", TogJ="= FALSE")
+        r3, n3 = c04.gen_nets(th, simulate="num=%d" % (40 if tr == "quick" else 500), depth=18, seed=4200 + sd, timeout=1200)
+        n3 = [n for n in n3 if n["sup"] and sum(1 for e in n["net"]["E"] if e["tbl"] == "pipe" and e["svc"]) >= 2
+              and any(q["tbl"] == "sink" and q["svc"] for q in n["net"]["N"]) and any(q["tbl"] == "ext_grid" and q["svc"] and "t" in q["typ"] for q in n["net"]["N"])]
+        capt = 240 if tr == "quick" else 6000
+        extra_therm = rnd.sample(n3, capt) if len(n3) > capt else n3
     if relkind == "iso":
         # nets dense in junction-pipe valves (three valves on three pipes): row order vs label order of the valve table matters
         pv = dict(MaxJ="= 4", MaxE="= 3", MaxN="= 2", MaxPV="= 3", Kinds="<- KindsPipe", NKinds="<- NKindsCore", TogJ="= FALSE")
@@ -146,6 +156,15 @@ def relational_part(V, prop, relkind, tr, sd, workers=None, ncap=None):
         jobs.append({"id": "r%d" % i, "an": n["net"], "fluid": "water" if (seq or i % 4 == 1) else "lgas", "params": prm,
                      "opts": opts, "check": [prop + "R"], "relkind": relkind, "rseed": sd * 1000 + i,
                      "ropts": {"use_numba": True} if relkind == "numba" else None})
+    for i, n in enumerate(extra_therm):
+        md = ("bidirectional", "sequential")[i % 2]
+        prm = row_params(n["net"])
+        for q in n["net"]["N"]:
+            if q["tbl"] == "sink":
+                prm[("sink", q["lab"])] = {"mdot": 0.4 + 0.3 * q["lab"], "scaling": 1.0}      # flows large enough for a clear pressure drop
+        jobs.append({"id": "t%d" % i, "an": n["net"], "fluid": "water", "params": prm,
+                     "opts": dict(c04.PF_OPTS, mode=md, max_iter_therm=60, max_iter_bidirect=100, tol_T=1e-9), "check": [prop + "R"],
+                     "relkind": relkind, "rseed": sd * 1000 + 500 + i, "ropts": None})
     if relkind == "numba":
         # trickle flows on dead-end pipes (between the zero-flow thresholds of the twin kernels)
         for t, trickle in enumerate((5e-9, 3e-10, 8e-9)):
